@@ -3,6 +3,7 @@
 package cl
 
 import (
+	"math"
 	"math/big"
 
 	"github.com/ohler55/slip"
@@ -74,4 +75,46 @@ func bigToRatio(v slip.Object) slip.Object {
 		v = (*slip.Ratio)(z.SetInt((*big.Int)(bi)))
 	}
 	return v
+}
+
+// addFixnums returns the sum of two fixnums as a fixnum or, if the sum does
+// not fit in a fixnum, as a bignum.
+func addFixnums(x, y slip.Fixnum) slip.Object {
+	sum := x + y
+	// On an overflow the sign of the sum differs from the sign of both x
+	// and y.
+	if (x^sum)&(y^sum) < 0 {
+		var z big.Int
+		return (*slip.Bignum)(z.Add(big.NewInt(int64(x)), big.NewInt(int64(y))))
+	}
+	return sum
+}
+
+// subFixnums returns the difference of two fixnums as a fixnum or, if the
+// difference does not fit in a fixnum, as a bignum.
+func subFixnums(x, y slip.Fixnum) slip.Object {
+	dif := x - y
+	// On an overflow x and y have different signs and the sign of the
+	// difference is not the sign of x.
+	if (x^y)&(x^dif) < 0 {
+		var z big.Int
+		return (*slip.Bignum)(z.Sub(big.NewInt(int64(x)), big.NewInt(int64(y))))
+	}
+	return dif
+}
+
+// mulFixnums returns the product of two fixnums as a fixnum or, if the
+// product does not fit in a fixnum, as a bignum.
+func mulFixnums(x, y slip.Fixnum) slip.Object {
+	if x == 0 || y == 0 {
+		return slip.Fixnum(0)
+	}
+	product := x * y
+	// The division does not catch the most negative fixnum times -1, that
+	// wraps around to the same value in the product and in the quotient.
+	if product/y != x || (y == -1 && x == math.MinInt64) {
+		var z big.Int
+		return (*slip.Bignum)(z.Mul(big.NewInt(int64(x)), big.NewInt(int64(y))))
+	}
+	return product
 }
